@@ -16,7 +16,7 @@ use std::time::Duration;
 
 pub static PROP: Prop = Prop {
     id: "C16",
-    rule: "cases: a pool of 2-6 (program, context recipe) pairs that deliberately share the names v0..v3 (statement programs that assign, read and fail midway; expression trees; texts that differ in one literal or are identical with different contexts; flat texts around a dynamically re-registered infix operator vh_dyn; a third of the later entries evaluate an earlier entry from inside a context function reached by the bare name `nz`, i.e. nested evaluation) and a history of 6-30 steps over 1-4 persistent worker threads: exec(i) with a fresh context, parse-only(i), parse-once-exec-n-times(i) on equal fresh contexts, re-registration of vh_dyn with another precedence/associativity, parse(flat text) compared with the reference parser under the registration made last, and bursts in which all threads run steps concurrently behind a barrier. Oracle: the solo outcome of each pool entry (result and final context) from the reference evaluator (or, where that is unspecified, the first solo run) must be the outcome of every occurrence on every thread; parse results depend only on the text and the last registration; after parse-only steps no lock is held and no registered handler has been invoked (a third of the histories use the harness's logging functions and operators, with literal and computed arguments). 1 case in 64 also cross-checks the solo outcome in a fresh child process. Fixed part: held-initialisation scenarios (results must not depend on another thread's concurrent first use) and depth sweeps (1..320 nested parens/brackets/calls/prefixes) evaluated, parsed only, and evaluated again on one thread must repeat exactly. Non-trivial: the history runs >= 2 different programs that share an assigned name with a repetition after a different program, or a parse on one thread after a re-registration on another; distinct by (pool shape, schedule shape).",
+    rule: "cases: a pool of 2-6 (program, context recipe) pairs that deliberately share the names v0..v3 (statement programs that assign, read and fail midway; expression trees; texts that differ in one literal or are identical with different contexts; flat texts around a dynamically re-registered infix operator vh_dyn; a third of the later entries evaluate an earlier entry from inside a context function reached by the bare name `nz`, i.e. nested evaluation) and a history of 6-30 steps over 1-4 persistent worker threads: exec(i) with a fresh context, parse-only(i), parse-once-exec-n-times(i) on equal fresh contexts, re-registration of vh_dyn with another precedence/associativity, parse(flat text) compared with the reference parser under the registration made last, and bursts in which all threads run steps concurrently behind a barrier. Oracle: the solo outcome of each pool entry (result and final context) from the reference evaluator (or, where that is unspecified, the first solo run) must be the outcome of every occurrence on every thread; parse results depend only on the text and the last registration; after parse-only steps no lock is held and no registered handler has been invoked (a third of the histories use the harness's logging functions and operators, with literal and computed arguments). 1 case in 64 also cross-checks the solo outcome in a fresh child process. One history in eight first takes a word never seen before, uses it as a plain name (variable, call, in a parse on another thread - any subset), registers it as postfix, prefix or infix operator and evaluates a program that needs the operator: the result must be the one the registration requires. Fixed part: held-initialisation scenarios (results must not depend on another thread's concurrent first use) and depth sweeps (1..320 nested parens/brackets/calls/prefixes) evaluated, parsed only, and evaluated again on one thread must repeat exactly. Non-trivial: the history runs >= 2 different programs that share an assigned name with a repetition after a different program, or a parse on one thread after a re-registration on another; distinct by (pool shape, schedule shape).",
     assumptions: &[
         "the harness's own registrations (vh_*) are part of `the registrations made so far` and are modelled",
         "concurrent bursts use free-running threads: interleavings are sampled, not enumerated",
@@ -353,8 +353,68 @@ fn gen_entry(src: &mut Src, cfg: &SemCfg) -> (R, SemCtx) {
     (tree, sc)
 }
 
+/// A word that earlier programs used as a plain name (variable, call, on this and on another thread)
+/// is registered as an operator afterwards: programs parsed from then on depend on the registration
+/// made so far, not on what was parsed before it.  Every call uses a word never seen before.
+fn late_registration(src: &mut Src, st: &mut Stats) -> CaseResult {
+    use std::sync::atomic::{AtomicUsize, Ordering};
+    static NEXT: AtomicUsize = AtomicUsize::new(0);
+    let w = format!("{}{}", src.choose(&["vh_lw", "Vh.lw", "é_lw"]), NEXT.fetch_add(1, Ordering::SeqCst));
+    let kind = src.pick(3);
+    let pre_uses = src.pick(8); // bit 0: as variable, bit 1: as call, bit 2: on another thread
+    st.hist(&format!("late-registration:{}:pre-uses={}", ["postfix", "prefix", "infix"][kind], pre_uses));
+    let num = |v: std::result::Result<Value, String>| v.map(|v| format!("{:?}", v));
+    let run = |text: String| -> std::result::Result<Value, String> {
+        match guard(|| execute(&text, expression_engine::create_context!()).map_err(|e| e.to_string())) {
+            Ok(r) => r,
+            Err(p) => Err(format!("PANIC {}", p)),
+        }
+    };
+    let fail = |sig: &str, detail: String| Failure::new(format!("late-registration:{}", sig), detail, json!({"word": w, "kind": kind, "pre_uses": pre_uses}));
+    if pre_uses & 1 != 0 {
+        let got = num(run(format!("{w} = 3 ; {w} + 1", w = w)));
+        if got != Ok(format!("{:?}", Value::from(4))) {
+            return Err(fail("before", format!("`{w} = 3 ; {w} + 1` with the plain name {w} gave {:?}", got, w = w)));
+        }
+    }
+    if pre_uses & 2 != 0 && run(format!("{}(1)", w)).is_ok() {
+        return Err(fail("before", format!("`{}(1)` succeeded although nobody provides that function", w)));
+    }
+    if pre_uses & 4 != 0 {
+        let w2 = w.clone();
+        let h = std::thread::spawn(move || expression_engine::parse_expression(&format!("[{w} , 7 {w} , {w} 7]", w = w2)).map(|a| a.expr()).is_ok());
+        let _ = h.join();
+    }
+    let (text, want) = match kind {
+        0 => {
+            expression_engine::register_postfix_op(&w, Arc::new(|a| Ok(Value::from(a.decimal()? * rust_decimal::Decimal::from(100)))));
+            (format!("7 {}", w), Value::from(700))
+        }
+        1 => {
+            expression_engine::register_prefix_op(&w, Arc::new(|a| Ok(Value::from(a.decimal()? + rust_decimal::Decimal::from(1000)))));
+            (format!("{} 7", w), Value::from(1007))
+        }
+        _ => {
+            register_infix_op(&w, 115, InfixOpType::CALC, InfixOpAssociativity::LEFT, Arc::new(|a, b| Ok(Value::from(a.decimal()? * rust_decimal::Decimal::from(10) + b.decimal()?))));
+            (format!("2 {} 3 * 2", w), Value::from(26))
+        }
+    };
+    let got = num(run(text.clone()));
+    if got != Ok(format!("{:?}", want)) {
+        return Err(fail(
+            ["postfix", "prefix", "infix"][kind],
+            format!("{:?} after {} was registered as {} operator (pre-uses {:03b}: variable / call / other thread) gave {:?}, the registration made so far requires {:?}", text, w, ["postfix", "prefix", "infix"][kind], pre_uses, got, want),
+        ));
+    }
+    Ok(())
+}
+
 fn case(src: &mut Src, st: &mut Stats, env: &Env) -> CaseResult {
     st.eval();
+    // one history in eight starts with a late registration (own choices first)
+    if src.pick(8) == 0 {
+        late_registration(src, st)?;
+    }
     let cfg = SemCfg {
         max_depth: 3,
         edge: false,
